@@ -759,7 +759,8 @@ def judge_c06_accessors(ctx, cfg, lits):
         f = a.split(' ')
         n = int(s)
         # inside a Value: same digits when the Value can hold the integer exactly (always under arbitrary_precision)
-        val_ok = len(f) == 3 and (f[2] == want if ('a' in L or -2**63 <= n <= 2**64 - 1) else True)
+        # ... and an ERROR otherwise (to_value must never hand back a different number: wrapped, truncated or saturated)
+        val_ok = len(f) == 3 and (f[2] == want if ('a' in L or -2**63 <= n <= 2**64 - 1) else f[2] == 'valerr')
         if f[0] != 'ok' or f[1] != want or not val_ok:
             v.append({'what': 'integer-serialisation', 'cfg': cfg, 'input': hx(s.encode()), 'target': INT_NAMES[code], 'expected': 'ok %s (the decimal digits)' % want, 'actual': a, 'shrinkable': False})
     # accessors
